@@ -139,6 +139,10 @@ pub fn buffered_input_from_reader_with_limit<'a, R: Read + 'a>(
     // Auto-detect encoding (BOM or guess), decode to UTF-8 on the fly.
     let decoder = DecodeReaderBytesBuilder::new()
         .encoding(None) // None = sniff BOM / use heuristics; set Some(encoding) to force
+        // UTF-8 input (with or without BOM) is passed through undecoded, so that invalid or
+        // truncated UTF-8 is reported by `ChunkedChars` instead of being replaced with U+FFFD.
+        .utf8_passthru(true)
+        .strip_bom(true)
         .build(reader);
 
     let error: ReaderInputError = Rc::new(RefCell::new(None));
